@@ -93,6 +93,15 @@ def judge(case, rec, replay_case=None):
             add('skipped_not_executed', f'C02/skipped_but_executed/outcome={kind}',
                 f't{idx} has a failed/skipped hard dependency but was executed')
     if not came_back:
+        if rec.verdict and rec.verdict[0] == 'deadlock':
+            # "after scheduling every task is in exactly one final state": the call never comes
+            # back (C03 says why), and these tasks never reach a final state
+            stuck = {f't{idx}': (st_.name if isinstance(st_, TaskStatus) else repr(st_))
+                     for idx, st_ in sorted(rec.statuses.items())
+                     if not isinstance(st_, TaskStatus) or st_ not in sc.FINAL}
+            add('final_state', 'C02/no_final_state/scheduling-never-ends',
+                f'no runnable thread left ({rec.verdict[1]}); tasks without a final state: {stuck}; '
+                f'dead workers: { {k: repr(v)[:80] for k, v in rec.deaths.items()} }')
         return fails, None
     statuses = {}
     for idx in range(case['n']):
